@@ -12,6 +12,7 @@ import Vibrato.Driver.Conn
 import Vibrato.Driver.Extractor
 import Vibrato.Driver.MecabSpec
 import Vibrato.Driver.Trainer
+import Vibrato.Driver.TrainerNew
 
 open Vibrato Vibrato.Driver
 
@@ -105,6 +106,12 @@ def stepLine (fx : Fixes) (st : DState) (line : String) : DState × String :=
     -- they are documented to make (which the other streams tie to the model)
     (st, s!"cli {id} MODEL same")
   | "train" :: id :: rest => (st, s!"train {id} MODEL {Trainer.handle (input rest)}")
+  | "trainnew" :: id :: rest =>
+    -- C18 (second half): five seed files -> label feature sets of `Trainer::new` (`Model/TrainerNew.lean`);
+    -- for an `ok` observation taken from a trained model the model prints its own restricted to what survived
+    -- training; for `okfull` (hook `trainer_labels`, directly after `Trainer::new`) its complete observation
+    let impl := rest.dropWhile (· ≠ "IMPL") |>.drop 1 |>.takeWhile (· ≠ "##")
+    (st, s!"trainnew {id} MODEL {TrainerNew.handle fx (input rest) impl}")
   | "corpus" :: id :: rest => (st, s!"corpus {id} MODEL {Corpus.handle (input rest)}")
   | s :: id :: _ => (st, s!"{s} {id} MODEL unknown-stream")
   | _ => (st, "? ? MODEL badline")
